@@ -395,6 +395,83 @@ def loop_sources(ex, paths):
 
 
 
+def list_fill(ex, paths, fn, value, elem_ty_rx=None):
+    """How the list a function returns / stores as `value` is filled — independent of the spelling: collected from an iterator
+    (`collect`, `from_iter`; run the engine with the collect desugaring) or pushed element by element in a loop.
+    Returns dict(form, base=[printed source collections], elements=[(item symbol, element term, path)], skipped=<number of
+    iterations that add nothing>, other=[mutating calls on the list besides push]) or None if the value is not understood."""
+    # form A: the finished collection of an iterator
+    for p in paths:
+        for e in p.events:
+            if e[0] == "iter-exhausted" and ("app", e[2], (e[3],)) == value:
+                bbc = e[1]
+                src = e[3]
+                base = src
+                n_ = 0
+                while base[0] == "app" and base[2] and n_ < 8:
+                    base = base[2][0]
+                    base = ex.deref_val(p, base) if base[0] == "ref" else base
+                    n_ += 1
+                els, skipped = [], 0
+                for q in paths:
+                    its = [x for x in q.events if x[0] == "iter-item" and x[1] == bbc]
+                    if not its:
+                        continue
+                    cs = [x for x in q.events if x[0] == "collect-item" and x[1] == bbc]
+                    if cs:
+                        els.append((its[-1][4], cs[-1][2], q))
+                    elif q.end and q.end[0] == "cut":
+                        skipped += 1
+                ads = [x[1] for x in S.subterms(src) if x[0] == "app" and re.search(r"Iterator>::(rev|skip|take|filter|filter_map|flat_map|step_by|skip_while|take_while|chain|zip|cycle|peekable|scan)\b", str(x[1]))]
+                return {"form": "collect", "base": [S.fstr(base)], "elements": els, "skipped": skipped, "other": [M.short_name(a) for a in ads]}
+    # form B: a vector created empty and pushed to in a loop
+    if value[0] == "app" and re.search(r"Vec::<.*>::(new|with_capacity)$", str(value[1])):
+        els, skipped, other, bases = [], 0, [], set()
+        recv_locals = set()
+        for q in paths:
+            for e in q.events:
+                if e[0] == "call" and re.search(r"Vec::<.*>::push$", e[2]) and e[3] and e[3][0][0] == "ref" and e[3][0][1][1][0] == "local":
+                    l = e[3][0][1][1]
+                    ty = fn.locals[l[2]]["ty"] if l[1] == ex.fid and l[2] < len(fn.locals) else ""
+                    if elem_ty_rx is None or re.search(elem_ty_rx, ty):
+                        recv_locals.add(l)
+        if len(recv_locals) != 1:
+            return None
+        recv = list(recv_locals)[0]
+        for q in paths:
+            nx = [e for e in q.events if e[0] == "call" and re.search(r"iter::Iterator>::next$", e[2])]
+            pushes = [e for e in q.events if e[0] == "call" and re.search(r"Vec::<.*>::push$", e[2]) and e[3][0][0] == "ref" and e[3][0][1][1] == recv]
+            for e in q.events:
+                if e[0] == "call" and e[3] and e[3][0][0] == "ref" and e[3][0][1][1] == recv and e[3][0][2] is True and not re.search(r"Vec::<.*>::push$|Deref|IntoIterator|::iter$|::len$|::windows$|::is_empty$", e[2]):
+                    other.append(M.short_name(e[2]))
+            if not nx:
+                continue
+            # the element this iteration got: the Some(..) the `next` call stored
+            got = []
+            for e in nx:
+                ws = [w for w in q.events if w[0] == "write" and w[1] == e[1] and w[4][0] == "adt" and w[4][2] == "Some" and w[4][3]]
+                if ws:
+                    got.append((e, ws[-1][4][3][0]))
+            if not got:
+                continue
+            for e, _ in got:
+                b_ = ex.deref_val(q, e[3][0]) if e[3][0][0] == "ref" else e[3][0]
+                n_ = 0
+                while b_[0] == "app" and re.search(r"iter::IntoIterator>::into_iter$", str(b_[1])) and n_ < 3:
+                    b_ = b_[2][0]
+                    n_ += 1
+                bases.add(S.fstr(b_).lstrip("&*"))
+            if q.end and q.end[0] == "cut":
+                if pushes:
+                    item = got[-1][1]
+                    for pu in pushes:
+                        els.append((item, pu[3][1], q))
+                else:
+                    skipped += 1
+        return {"form": "push", "base": sorted(bases), "elements": els, "skipped": skipped, "other": other}
+    return None
+
+
 def char_tests(conds):
     """[(tested term, char, is_equal)] for `x == 'c'`, `'c' == x`, `x != 'c'` and `match x { 'c' => .. }` (a switch on the
     char value), with the outcome each path assumed."""
